@@ -111,6 +111,9 @@ enum Ms {
     Mid,
     Hi,
     Rand,
+    /// a largest shard far below the average: not what the builder passes, but inside the
+    /// domain of set_up_graphs (index into a small table)
+    Small(usize),
 }
 
 fn is_capacity_panic(msg: &str) -> bool {
@@ -170,6 +173,7 @@ fn set_up<S: SigT, E: ShardEdge<S, 3>>(
             Ms::Mid => lo + (hi - lo) / 2,
             Ms::Hi => hi,
             Ms::Rand => c.rng().random_range(lo..=hi),
+            Ms::Small(k) => [1usize, 100, 1100, 3000, lo / 10 + 1, lo / 2 + 1][k % 6].min(lo),
         }
     };
     let r = catch(move || {
@@ -641,6 +645,11 @@ fn main() {
                 if v < 2 {
                     for &eps in &EPS {
                         do_case(&mut ctx, v, &format!("{}/eps={:e}", stratum, eps), n, eps, &all3, pre, nrand_big, &cnt);
+                    }
+                    // (only where the graphs are sized for lazy Gaussian elimination: above 800 000 keys the
+                    // logic documents, and asserts, that a shard holds more than 100 000 keys)
+                    if (100_000..=800_000).contains(&n) {
+                        do_case(&mut ctx, v, &format!("{}/max-shard-below-average", stratum), n, EPS[i % 4], &[Ms::Small(i), Ms::Small(i + 1), Ms::Small(i + 2)], pre, nrand_big, &cnt);
                     }
                 } else {
                     // no sharding: eps and the maximum shard are ignored
